@@ -41,6 +41,8 @@ func openHist(filename string) (list []Item, err error) {
 	}
 
 	scanner := bufio.NewScanner(file)
+	// a command can be longer than bufio.Scanner's default 64 KiB token limit
+	scanner.Buffer(make([]byte, 0, 64*1024), 1<<30)
 	for scanner.Scan() {
 		var item Item
 		err := json.Unmarshal(scanner.Bytes(), &item)
